@@ -153,6 +153,7 @@ impl StringPoolBuilder {
 // ========================================================================= //
 
 /// The string pool for an MSI package.
+#[derive(Clone)]
 pub struct StringPool {
     codepage: CodePage,
     strings: Vec<(String, u16)>,
@@ -224,9 +225,39 @@ impl StringPool {
         }
     }
 
+    /// Returns true if the given number of additional strings is certain to
+    /// fit in the pool, even if every one of them needs a new entry.
+    pub(crate) fn has_room_for(&self, num_strings: usize) -> bool {
+        self.strings.len().saturating_add(num_strings) <= self.max_entries()
+    }
+
+    fn max_entries(&self) -> usize {
+        if self.long_string_refs {
+            MAX_STRING_REF as usize
+        } else {
+            // TODO: Beyond this, we would need to rewrite all database tables
+            // from short to long string refs.
+            u16::MAX as usize
+        }
+    }
+
     /// Inserts a string into the pool, or increments its refcount if it's
     /// already in the pool, and returns the index of the string in the pool.
+    /// Panics if the pool is full; use `try_incref()` (on a copy of the pool,
+    /// if nothing must change on failure) to find out beforehand.
     pub fn incref(&mut self, string: String) -> StringRef {
+        match self.try_incref(string) {
+            Some(string_ref) => string_ref,
+            None => panic!(
+                "Too many distinct strings in string pool (rewriting to \
+                 long string refs is not yet supported)"
+            ),
+        }
+    }
+
+    /// Like `incref()`, but returns `None` instead of panicking if the string
+    /// needs a new entry and the pool cannot address any more entries.
+    pub(crate) fn try_incref(&mut self, string: String) -> Option<StringRef> {
         self.is_modified = true;
         // TODO: change the internal representation of StringPool to make this
         // more efficient.
@@ -237,26 +268,18 @@ impl StringPool {
                 debug_assert_eq!(st, "");
                 *st = string;
                 *refcount = 1;
-                return StringRef((index + 1) as i32);
+                return Some(StringRef((index + 1) as i32));
             }
             if *st == string && *refcount < u16::MAX {
                 *refcount += 1;
-                return StringRef((index + 1) as i32);
+                return Some(StringRef((index + 1) as i32));
             }
         }
-        if self.strings.len() >= u16::MAX as usize && !self.long_string_refs {
-            // TODO: If this happens, we need to rewrite all database tables
-            // from short to long string refs.
-            panic!(
-                "Too many strings; rewriting to long string refs is not \
-                    yet supported"
-            );
-        }
-        if self.strings.len() >= MAX_STRING_REF as usize {
-            panic!("Too many distinct strings in string pool");
+        if self.strings.len() >= self.max_entries() {
+            return None;
         }
         self.strings.push((string, 1));
-        StringRef(self.strings.len() as i32)
+        Some(StringRef(self.strings.len() as i32))
     }
 
     /// Decrements the refcount of a string in the pool.
